@@ -52,6 +52,15 @@ func (e *Engine) FindAt(haystack []byte, at int) *Match {
 		return nil
 	}
 
+	// Leftmost-longest mode: only the NFA simulation implements it (see FindIndices).
+	if e.longest {
+		start, end, found := e.pikeSearchAt(haystack, at)
+		if !found {
+			return nil
+		}
+		return NewMatch(start, end, haystack)
+	}
+
 	// For position 0, use the optimized strategy-specific paths
 	if at == 0 {
 		return e.findAtZero(haystack)
